@@ -13,7 +13,7 @@ PROP = "C06"
 LEVEL = "exploration"
 RULE = ("seeded random histories (30-400 operations) over capacities 1-8 and 64 with a key universe of "
         "capacity+1..capacity+4 keys (ints, and mixed int/str/tuple keys): store, c[k], get, del, in, len, "
-        "list, keys, values, items, nested (interleaved) view iterations, pop, popitem, clear, update, setdefault, == (dict / other cache). After "
+        "list, keys, values, items, nested (interleaved) view iterations, pop, popitem, clear, update, setdefault, == and != (equal dict, dict differing in a value, dict of the same size with another key set while the cache holds None, other cache). After "
         "every operation: result or exception class, len<=max_size, list(c) == model recency order, evicted key "
         "== model LRU; views/==/popitem must finish within 2000+200*(n+1)^2 repository statements and agree "
         "with the content. distinct_nontrivial = distinct (capacity, recency order, values) states with >=2 keys.")
@@ -28,7 +28,7 @@ NSHARDS = 16
 SHARD_TIMEOUT = {"quick": 600, "thorough": 3600}
 
 OPS = ["set", "set", "set", "getitem", "getitem", "get", "del", "contains", "len", "list", "keys", "values", "items", "nested",
-       "pop", "popitem", "clear", "update", "setdefault", "eq_dict", "eq_cache", "ne_dict"]
+       "pop", "popitem", "clear", "update", "setdefault", "eq_dict", "eq_cache", "ne_dict", "ne_keys"]
 MOD = "vf.checks.c06"
 
 
@@ -56,7 +56,7 @@ def gen_case(rng, tier, index):
     w["clear"] = 0.2
     viewless = index % 3 == 0  # exact recency all the way
     if viewless:
-        for o in ("values", "items", "eq_dict", "eq_cache", "ne_dict", "popitem", "setdefault", "contains", "clear", "nested"):
+        for o in ("values", "items", "eq_dict", "eq_cache", "ne_dict", "ne_keys", "popitem", "setdefault", "contains", "clear", "nested"):
             w[o] = 0
     names = sorted(w)
     ops = []
@@ -319,8 +319,24 @@ def run_case(case, res):
                 adopt, touched = "front", k   # a lookup of k: either refreshed or not
             else:
                 m.store(k, v)
-        elif op in ("eq_dict", "ne_dict", "eq_cache"):
-            if op == "eq_dict":
+        elif op in ("eq_dict", "ne_dict", "eq_cache", "ne_keys"):
+            if op == "ne_keys" and not m.order:
+                continue
+            if op == "ne_keys":
+                # same size, different key set: the key that only the cache has holds None there (a stored None and a
+                # missing key are different things)
+                kk = m.order[aux % len(m.order)]
+                got = _guard(f"store {kk!r} = None", n, lambda: c.__setitem__(kk, None))
+                if got[0] != "ok":
+                    raise Violation("operation-raised", f"store of None under {kk!r} raised {got[1]}", {})
+                m.store(kk, None)
+                other = {k2: v2 for k2, v2 in m.val.items() if k2 is not kk}
+                other[("only", "in", "the", "other", "mapping")] = 5
+                want = False
+                ne = _guard("!= (ne_keys)", 2 * n, lambda: c != other)
+                if ne != ("ok", True):
+                    raise Violation("view-content", f"cache != dict with content {m.val!r} vs {other!r} -> {ne}, expected True", {})
+            elif op == "eq_dict":
                 other, want = dict(m.val), True
             elif op == "ne_dict":
                 other = dict(m.val)
